@@ -20,13 +20,13 @@ ENTRIES = ["starttls", "legacy"]
 CAS = ["ca", "noca"]
 # X509_V_ERR_* that OpenSSL must report first for each kind when the CA is configured
 FIRST_ERR = {"wrongname": 62, "partial": 62, "expired": 10, "notyet": 9, "untrusted": 20, "selfsigned": 18, "chainexp": 10,
-             "announced": 62}
+             "announced": 62, "expired10m": 10, "notyet10m": 9}
 DOMAIN = "xmpp.example.com"
 DIGIT_DOMAIN = "4chat.example.org"          # a DNS domain that starts with a digit
 # dNSName in the certificate of each kind; GOOD_CHAIN = issued (directly or through a valid intermediate) by the CA, in date
 KIND_SAN = {"valid": DOMAIN, "wrongname": "xmpp.example.org", "partial": "xm*.example.com", "expired": DOMAIN, "notyet": DOMAIN,
             "untrusted": DOMAIN, "selfsigned": DOMAIN, "fullwild": "*.example.com", "chainok": DOMAIN, "chainexp": DOMAIN,
-            "announced": "evil.example.net", "silent": DOMAIN,
+            "announced": "evil.example.net", "silent": DOMAIN, "expired10m": DOMAIN, "notyet10m": DOMAIN,
             "dvalid": DIGIT_DOMAIN, "dprefix": DIGIT_DOMAIN + ".example.net", "dsuffix": "x" + DIGIT_DOMAIN,
             "dwild": "*.example.org", "dpartial": "4c*.example.org"}
 GOOD_CHAIN = ("valid", "wrongname", "partial", "fullwild", "chainok", "announced", "dvalid", "dprefix", "dsuffix", "dwild", "dpartial")
@@ -129,6 +129,18 @@ def extra_cells(thorough):
         "dsuffix R starttls ca domain=4chat.example.org", "dsuffix R legacy ca domain=4chat.example.org",
         "dpartial N starttls ca domain=4chat.example.org", "dpartial R legacy ca domain=4chat.example.org",
         "dvalid N starttls ca", "dwild N legacy ca",       # and the digit-domain certificates are wrong for the first domain
+        # ten minutes outside the validity period is outside the validity period
+        "expired10m N starttls ca", "expired10m N legacy ca", "expired10m R starttls ca", "expired10m R legacy ca",
+        "expired10m A starttls ca", "expired10m A legacy noca",
+        "notyet10m N starttls ca", "notyet10m N legacy ca", "notyet10m R legacy ca", "notyet10m R starttls ca",
+        "notyet10m A legacy ca", "notyet10m A starttls noca",
+        # callback history on the same connection object: what counts is the handler set last (hist= lists the earlier
+        # settings: A accept-all, R reject-all, N none); "A then removed" must behave like N, "R then A" like A
+        "untrusted N starttls ca hist=A", "untrusted N legacy ca hist=A", "wrongname N starttls ca hist=A",
+        "expired N legacy ca hist=A", "selfsigned N starttls noca hist=RA", "valid N starttls ca hist=A",
+        "untrusted A legacy ca hist=R", "expired A starttls ca hist=R", "selfsigned R legacy ca hist=A",
+        "wrongname R starttls ca hist=A", "chainexp P1 legacy ca hist=R", "chainexp P0 starttls ca hist=A",
+        "untrusted A starttls ca hist=AN", "untrusted T legacy noca hist=R",
         # XMPP_CONN_FLAG_MANDATORY_TLS: the failure reactions must not depend on it
         "wrongname N starttls+m ca", "valid N starttls+m ca", "expired R starttls+m ca", "untrusted N legacy+m ca",
         "valid N starttls+m badca", "valid A legacy+m badca",
@@ -141,6 +153,9 @@ def extra_cells(thorough):
         ex += ["%s %s %s %s" % (k, m, e, c) for k in ("chainok", "chainexp")
                for m in ("T", "N", "A", "R", "P0", "P1", "P2", "Q0", "Q1", "Q2", "S10", "S01") for e in ENTRIES for c in CAS]
         ex += ["%s %s %s+m ca" % (k, m, e) for k in KINDS for m in ("N", "R", "A") for e in ENTRIES]
+        ex += ["%s %s %s %s" % (k, m, e, c) for k in ("expired10m", "notyet10m") for m in MODES + ["P0", "Q0"] for e in ENTRIES for c in CAS]
+        ex += ["%s %s %s ca hist=%s" % (k, m, e, h) for k in ("untrusted", "wrongname", "expired10m", "chainexp", "valid")
+               for m in ("N", "A", "R") for e in ENTRIES for h in ("A", "R", "AR", "RA", "AN")]
         ex += ["%s %s %s %s domain=4chat.example.org" % (k, m, e, c)
                for k in ("dvalid", "dprefix", "dsuffix", "dwild", "dpartial", "valid", "wrongname", "fullwild", "expired", "chainok")
                for m in MODES + ["P0", "S10"] for e in ENTRIES for c in CAS]
@@ -181,6 +196,8 @@ def case_fields(case):
             f["announce"] = opt[9:]
         elif opt.startswith("domain="):
             f["domain"] = opt[7:]
+        elif opt.startswith("hist="):
+            f["hist"] = opt[5:]
     return f
 
 
@@ -193,7 +210,7 @@ def model_line(case, obs):
     te = obs.get("te", "0")
     if f["kind"] == "silent" and obs.get("silent", "").split("/")[1:2] == ["0"]:
         te = "5"        # the library's own handshake deadline expired: tls_start reports SSL_ERROR_SYSCALL
-    return "%s %s %s %s %s %s %s" % (f["mode"], f["entry"], f["ca"], hs_ok, te, stream, "close")
+    return "%s %s %s %s %s %s %s %s" % (f["mode"], f["entry"], f["ca"], hs_ok, te, stream, "close", f.get("hist") or "-")
 
 
 def compare(case, obs, mod):
@@ -202,7 +219,7 @@ def compare(case, obs, mod):
     diffs = []
     srv = dict(x.split(":", 1) if ":" in x else (x[:2], x[2:]) for x in obs["srv"].split("|"))
     pairs = [("cfg", obs["cfg"][:-1] + "0" if obs["cfg"].endswith("/-") else obs["cfg"], mod["cfg"]), ("v", obs["v"], mod["v"]), ("cbn", obs["cb"].split(":")[0], mod["cbn"]),
-             ("shown", obs["sh"], mod["sh"]),
+             ("shown", obs["sh"], mod["sh"]), ("stale", obs.get("stale", "0"), mod.get("stale", "0")),
              ("ts", obs["ts"], mod["ts"]), ("sec", obs["sec"], mod["sec"]), ("nd", obs["nd"], mod["nd"]),
              ("t", srv.get("t", "?"), mod["t"])]
     for name, a, b in pairs:
@@ -273,6 +290,14 @@ def oracle(case, obs):
     # the certificates OpenSSL's verdicts were about (read by the shim with X509_STORE_CTX_get_current_cert)
     failing_roles = [y.split(":")[2] for x, y in zip(vs, es) if x[0] != "1"]
 
+    # --- a handler that was replaced or removed before connecting has no say any more
+    if obs.get("stale", "0") != "0":
+        bad.append("a handler that had been %s before connecting (history %s) was still consulted %s times"
+                   % ("removed" if not has_cb else "replaced", f.get("hist"), obs["stale"]))
+    # --- never reported secured before the handshake has completed successfully
+    if "1" in obs.get("hsec", ""):
+        bad.append("xmpp_conn_is_secured was true while the handshake was still running (hsec=%s: at each verify-callback "
+                   "invocation / inside the user handler)" % obs["hsec"])
     if obs.get("hang") != "0":
         bad.append("the connection was still not torn down when the driver's wall-clock bound expired")
     # --- configuration handed to OpenSSL
